@@ -327,3 +327,7 @@ def run(chk, prog):
     from . import c03_parallel
     n7 = c03_parallel.rule_D7(chk, prog.library())
     chk.floor("D7", n7, 1)
+    # ---- D8: the neighbour wiring of create_subgrid is the geometric one (assumption A1, by cases) -------------------
+    from . import c03_wiring
+    n8 = c03_wiring.rule_D8(chk, prog.library(), D)
+    chk.floor("D8", n8, 2)
